@@ -101,6 +101,11 @@ func (p proxyHandler) ServeHTTP(rw http.ResponseWriter, req *http.Request) {
 		defer outreq.Body.Close()
 	}
 	outreq.Close = false
+	// Like the TCP server, name the target of an origin-form request after its Host field
+	// before any modifier looks at the request.
+	if outreq.URL.Host == "" {
+		outreq.URL.Host = outreq.Host
+	}
 
 	fixConnectReqContentLength(outreq)
 
